@@ -17,15 +17,21 @@ Arguments Z.to_nat : simpl never.
 Lemma rle_len_app {A} (a b : list (A * Z)) : rle_len (a ++ b) = rle_len a + rle_len b.
 Proof. induction a as [|[x n] a IH]; cbn [rle_len app]; [lia|]. rewrite IH. lia. Qed.
 
-Lemma rle_append_modify_gen_len {A} (eqb : A -> A -> bool) (r : list (A * Z)) a n :
-  rle_len (rle_append_modify_gen eqb r a n) = rle_len r + n.
+Lemma rle_append_core_len {A} (eqb : A -> A -> bool) (r : list (A * Z)) a n :
+  rle_len (rle_append_core eqb r a n) = rle_len r + n.
 Proof.
   induction r as [|[la lr] t IH]; [cbn; lia|].
   destruct t as [|y t'].
-  - cbn [rle_append_modify_gen]. destruct (eqb la a); cbn [rle_len]; lia.
-  - change (rle_append_modify_gen eqb ((la, lr) :: y :: t') a n)
-      with ((la, lr) :: rle_append_modify_gen eqb (y :: t') a n).
+  - cbn [rle_append_core]. destruct (eqb la a); cbn [rle_len]; lia.
+  - change (rle_append_core eqb ((la, lr) :: y :: t') a n)
+      with ((la, lr) :: rle_append_core eqb (y :: t') a n).
     cbn [rle_len] in *. rewrite IH. destruct y. lia.
+Qed.
+
+Lemma rle_append_modify_gen_len {A} (eqb : A -> A -> bool) (r : list (A * Z)) a n :
+  rle_len (rle_append_modify_gen eqb r a n) = rle_len r + n.
+Proof.
+  unfold rle_append_modify_gen. destruct (n =? 0) eqn:E; [lia|]. apply rle_append_core_len.
 Qed.
 
 Lemma rle_append_modify_len r a n : rle_len (rle_append_modify r a n) = rle_len r + n.
@@ -178,25 +184,28 @@ Proof. destruct a, b; cbn; intros H; try discriminate; [f_equal; lia|reflexivity
 
 Lemma append_nn r a n : nn r -> 0 <= n -> nn (rle_append_modify r a n).
 Proof.
-  unfold nn, rle_append_modify. intros Hr Hn. induction r as [|[la lr] t IH]; [repeat constructor; exact Hn|].
+  unfold nn, rle_append_modify, rle_append_modify_gen. intros Hr Hn. destruct (n =? 0) eqn:E0; [exact Hr|].
+  induction r as [|[la lr] t IH]; [repeat constructor; exact Hn|].
   inversion Hr as [|p l Hp Ht Heq]. cbn [snd] in Hp. destruct t as [|y t'].
-  - cbn [rle_append_modify_gen]. destruct (oz_eqb la a); repeat constructor; cbn [snd]; lia.
-  - change (rle_append_modify_gen oz_eqb ((la, lr) :: y :: t') a n)
-      with ((la, lr) :: rle_append_modify_gen oz_eqb (y :: t') a n).
+  - cbn [rle_append_core]. destruct (oz_eqb la a); repeat constructor; cbn [snd]; lia.
+  - change (rle_append_core oz_eqb ((la, lr) :: y :: t') a n)
+      with ((la, lr) :: rle_append_core oz_eqb (y :: t') a n).
     constructor; [exact Hp|apply IH, Ht].
 Qed.
 
 Lemma expand_append r a n : nn r -> 0 <= n ->
   expand_runs (rle_append_modify r a n) = expand_runs r ++ repeat a (Z.to_nat n).
 Proof.
-  unfold nn, rle_append_modify. intros Hr Hn. induction r as [|[la lr] t IH]; [cbn; now rewrite app_nil_r|].
+  unfold nn, rle_append_modify, rle_append_modify_gen. intros Hr Hn. destruct (n =? 0) eqn:E0.
+  { replace n with 0 by lia. cbn [repeat]. change (Z.to_nat 0) with 0%nat. cbn [repeat]. now rewrite app_nil_r. }
+  induction r as [|[la lr] t IH]; [cbn; now rewrite app_nil_r|].
   inversion Hr as [|p l Hp Ht Heq]. cbn [snd] in Hp. destruct t as [|y t'].
-  - cbn [rle_append_modify_gen]. destruct (oz_eqb la a) eqn:E.
+  - cbn [rle_append_core]. destruct (oz_eqb la a) eqn:E.
     + apply oz_eqb_eq in E. subst la. cbn [expand_runs]. rewrite !app_nil_r.
       replace (Z.to_nat (lr + n)) with (Z.to_nat lr + Z.to_nat n)%nat by lia. apply repeat_app.
     + cbn [expand_runs]. now rewrite !app_nil_r.
-  - change (rle_append_modify_gen oz_eqb ((la, lr) :: y :: t') a n)
-      with ((la, lr) :: rle_append_modify_gen oz_eqb (y :: t') a n).
+  - change (rle_append_core oz_eqb ((la, lr) :: y :: t') a n)
+      with ((la, lr) :: rle_append_core oz_eqb (y :: t') a n).
     cbn [expand_runs] in *. rewrite IH by exact Ht. now rewrite app_assoc.
 Qed.
 
